@@ -26,4 +26,13 @@ def requiredIntroFacts : List String :=
 def introFactsOk (l : List (String × Bool)) : Bool :=
   l.all (·.2) && requiredIntroFacts.all (fun k => l.any (fun e => e.1 == k))
 
+def requiredConverterFacts : List String :=
+  ["helper_called_only_on_converter_output", "helper_has_a_caller", "helper_writes_only_its_parameter"]
+
+/-- `_adapt._initializers_to_constants` rewrites its argument in place; it is only ever given
+    `<v>.graph` with `<v> = onnx.version_converter.convert_version(…)` — a ModelProto created by that
+    call, held by nobody else — and writes nothing but that argument. -/
+def converterFactsOk (l : List (String × Bool)) : Bool :=
+  l.all (·.2) && requiredConverterFacts.all (fun k => l.any (fun e => e.1 == k))
+
 end FrontFacts
